@@ -102,11 +102,12 @@ fn run_direct(entry: &str, data: &[u8]) -> (Result<String, mon::PanicInfo>, mon:
 }
 
 /// credentials of the authenticating client: ASCII, Latin-1, other BMP scripts, supplementary-plane characters
-pub const CREDS: [(&str, &str, &str); 4] = [("DOM", "user", "password"), ("D\u{d6}M", "\u{fc}s\u{e9}r", "p\u{e5}ss\u{ff}"), ("\u{434}\u{43e}\u{43c}\u{435}\u{43d}", "\u{7528}\u{6237}", "\u{43f}\u{430}\u{440}\u{43e}\u{43b}\u{44c}"), ("\u{57df}\u{1f511}", "\u{1f600}user", "\u{5bc6}\u{7801}\u{1f600}")];
+pub const CREDS: [(&str, &str, &str); 6] = [("DOM", "user", "password"), ("D\u{d6}M", "\u{fc}s\u{e9}r", "p\u{e5}ss\u{ff}"), ("\u{434}\u{43e}\u{43c}\u{435}\u{43d}", "\u{7528}\u{6237}", "\u{43f}\u{430}\u{440}\u{43e}\u{43b}\u{44c}"), ("\u{57df}\u{1f511}", "\u{1f600}user", "\u{5bc6}\u{7801}\u{1f600}"), ("", "user", "password"), (".", "", "")];
 
 /// sessions whose challenge is replaced run once per kind of credentials (the first with a defect is reported)
 pub fn run_plan(plan: &Plan) -> Observed {
-    let sets: &[usize] = if plan.target.starts_with("challenge") { &[0, 2, 3] } else { &[0] };
+    // ... and clients configured without a domain (the Connector default), or with next to nothing
+    let sets: &[usize] = if plan.target.starts_with("challenge") { &[0, 2, 3, 4, 5] } else { &[0] };
     let mut last = None;
     for k in sets {
         let o = run_plan_as(plan, *k);
